@@ -130,6 +130,14 @@ type hashRec struct {
 
 // uninterpretedHash models a collision-free hash: equal outputs iff equal inputs.
 func (fr *frame) uninterpretedHash(fname string, pre []value, n int, real func([]byte) []byte) []value {
+	if hasLazy(pre) && fr.i.px != nil {
+		// identical pre-image (same terms) hashed before on this path: same digest
+		for _, h := range fr.i.px.hashes[fname] {
+			if sameLazyElems(h.pre, pre) {
+				return h.out
+			}
+		}
+	}
 	if cb, ok := concBytes(pre); ok && real != nil {
 		out := bytesToElems(real(cb))
 		if fr.i.px != nil {
@@ -495,4 +503,36 @@ func init() {
 	}
 	externals["sort.Slice"] = sortSlice
 	externals["sort.SliceStable"] = sortSlice
+}
+
+func sameLazyElems(a, b []value) bool {
+	if len(a) != len(b) {
+		return false
+	}
+	for i := range a {
+		la, oka := a[i].(lazyDec)
+		lb, okb := b[i].(lazyDec)
+		if oka != okb {
+			return false
+		}
+		if oka {
+			if la.v.t != lb.v.t {
+				return false
+			}
+			continue
+		}
+		sa, oka := a[i].(symv)
+		sb, okb := b[i].(symv)
+		if oka != okb {
+			return false
+		}
+		if oka {
+			if sa.t != sb.t {
+				return false
+			}
+		} else if a[i] != b[i] {
+			return false
+		}
+	}
+	return true
 }
